@@ -13,6 +13,7 @@ import (
 	"github.com/yorkie-team/yorkie/api/types"
 	"github.com/yorkie-team/yorkie/client"
 	"github.com/yorkie-team/yorkie/pkg/document"
+	"github.com/yorkie-team/yorkie/pkg/document/crdt"
 	"github.com/yorkie-team/yorkie/pkg/document/json"
 	"github.com/yorkie-team/yorkie/pkg/document/presence"
 	"github.com/yorkie-team/yorkie/pkg/document/yson"
@@ -77,6 +78,95 @@ func setRoot(d *document.Document, y yson.Object, clear bool) error {
 	return err
 }
 
+// Typed construction of a literal through the ordinary user API (no SetYSON):
+// the client's content is built independently of the import code that
+// revisions.Restore and packs.Compact run on the server.
+
+func fillCounter(c *json.Counter, n Node) {
+	for _, a := range n.Act {
+		c.Add(a)
+	}
+}
+
+func fillText(tx *json.Text, n Node) {
+	pos := 0
+	for _, r := range n.Runs {
+		if a := copyAttrs(r.A); a != nil {
+			tx.Edit(pos, pos, r.V, a)
+		} else {
+			tx.Edit(pos, pos, r.V)
+		}
+		pos += prog.UTF16Len(r.V)
+	}
+}
+
+func putTyped(o *json.Object, k string, n Node) {
+	switch n.K {
+	case "obj":
+		in := o.SetNewObject(k)
+		for i, ck := range n.Keys {
+			putTyped(in, ck, n.Kids[i])
+		}
+	case "arr":
+		in := o.SetNewArray(k)
+		for _, c := range n.Kids {
+			addTyped(in, c)
+		}
+	case "text":
+		fillText(o.SetNewText(k), n)
+	case "tree":
+		o.SetNewTree(k, n.Tree.yson())
+	case "cint":
+		o.SetNewCounter(k, int32(n.I))
+	case "clong":
+		o.SetNewCounter(k, n.I)
+	case "cdedup":
+		fillCounter(o.SetNewDedupCounter(k), n)
+	default:
+		setPrim(o, k, n.YSON())
+	}
+}
+
+func addTyped(a *json.Array, n Node) {
+	switch n.K {
+	case "obj":
+		in := a.AddNewObject()
+		for i, ck := range n.Keys {
+			putTyped(in, ck, n.Kids[i])
+		}
+	case "arr":
+		in := a.AddNewArray()
+		for _, c := range n.Kids {
+			addTyped(in, c)
+		}
+	case "text":
+		fillText(a.AddNewText(), n)
+	case "tree":
+		a.AddNewTree(n.Tree.yson())
+	case "cint":
+		a.AddNewCounter(crdt.IntegerCnt, int32(n.I))
+	case "clong":
+		a.AddNewCounter(crdt.LongCnt, n.I)
+	case "cdedup":
+		fillCounter(a.AddNewCounter(crdt.IntegerDedupCnt, 0), n)
+	default:
+		addPrim(a, n.YSON())
+	}
+}
+
+// buildTyped stores the members of the literal under the given key names.
+func buildTyped(d *document.Document, lit Node, rename func(string) string) error {
+	err, _ := guarded(func() error {
+		return d.Update(func(r *json.Object, p *presence.Presence) error {
+			for i, k := range lit.Keys {
+				putTyped(r, rename(k), lit.Kids[i])
+			}
+			return nil
+		})
+	})
+	return err
+}
+
 // evalServer runs one case against the in-process server.
 func evalServer(c SCase) (fail *kit.Failure, ev map[string]int, sh *shape) {
 	ev = map[string]int{}
@@ -101,23 +191,37 @@ func evalServer(c SCase) (fail *kit.Failure, ev map[string]int, sh *shape) {
 			_ = cl.Detach(ctx, attached)
 		}
 	}()
+	rename := func(k string) string { return k }
 	if len(c.Steps) > 0 {
 		if err := prog.InitDoc(d); err != nil {
 			return harnessFail("init: %v", err), ev, sh
 		}
 		// keep the literal off the keys whose types the edit steps rely on
-		renamed := yson.Object{}
-		for k, v := range lit {
+		rename = func(k string) string {
 			switch k {
 			case "o", "a", "t", "c", "tr", "tx", "lc", "dc", "ic":
-				k = "L" + k
+				return "L" + k
 			}
-			renamed[k] = v
+			return k
 		}
-		lit = renamed
 	}
-	if err := setRoot(d, lit, false); err != nil {
-		return kit.Failf("IMPORT-ERROR", "SetYSON of an accepted literal fails: %v", err), ev, sh
+	if err := buildTyped(d, c.Lit, rename); err != nil {
+		// the typed setters refusing a value is not this property's subject
+		ev["aborted:build"] = 1
+		if os.Getenv("C18_DEBUG") != "" {
+			fmt.Printf("C18 abort build: %v\n", err)
+		}
+		return nil, ev, sh
+	}
+	if len(c.Steps) == 0 {
+		// the export of the typed construction is the literal itself
+		got, fail := exportYSON(d)
+		if fail != nil {
+			return fail, ev, sh
+		}
+		if diff := ysonDiff("$", lit, got); diff != "" {
+			return kit.Failf("EXPORT-DIFF", "FromCRDT of a document built with the typed setters differs from the built value at %s", diff), ev, sh
+		}
 	}
 	for _, st := range c.Steps {
 		var err error
